@@ -68,10 +68,12 @@ def render_variant(d: M.Schema, rnd: Any) -> str:
         if k <= 6:
             return rnd.choice(WS) if True else ""
         if k == 7:
-            body = rnd.choice(["", "x", " struct S { a @0: u8, } ", "*", "/", "\"", "// nested", "\n\n"])
+            body = rnd.choice(["", "x", " struct S { a @0: u8, } ", "*", "/", "\"", "// nested", "\n\n", "**", " \\", "\\\n",
+                               "* /", "/ *", "/*", "\n// x\n", "*\n*", " \u00e9\u65e5 ", "\\", " a\\\nb ", "'"])
             return ("" if not must else " ") + "/*" + body + "*/" + rnd.choice(["", " ", "\n"])
         if k == 8:
-            body = rnd.choice(["", " c", " impl can for X {", "/* */", "\"unterminated", "\t*/"])
+            body = rnd.choice(["", " c", " impl can for X {", "/* */", "\"unterminated", "\t*/", "\\", " ends with a backslash \\",
+                               " c:\\dir\\", " \\\\", "/*", " \\ ", " }", " \u00e9\u65e5", "// again", "'", " \\t"])
             return rnd.choice(["", " "]) + "//" + body + "\n"
         return rnd.choice(WS) + rnd.choice(WS)
 
